@@ -342,3 +342,57 @@ func VP_C06_Transition() {
 func vpSameSet(a, b *types.ValidatorSet) bool {
 	return bytes.Equal(a.Hash(), b.Hash())
 }
+
+// C06 / C01 (the last commit of a block is a valid two-thirds commit of the previous validator set):
+// block 2 carries a commit for block 1 in which every validator of the previous set (powers 12, 11, 10)
+// independently precommitted the block, precommitted nil, was absent, or has a slot with a signature
+// that is not its own (on a for-block or a nil slot).  Full validation accepts the block exactly when
+// every present signature is genuine and the for-block power alone exceeds two thirds.
+func VP_C06_ValidateLastCommit() {
+	st, keys, id1, t1 := vpC06State()
+	n := len(st.LastValidators.Validators)
+	sigs := make([]types.CommitSig, n)
+	var total, forBlock int64
+	allGenuine := true
+	ts := time.Unix(t1.Unix()+1, 0).UTC()
+	for i, v := range st.LastValidators.Validators {
+		var key ed25519.PrivKey
+		for _, k := range keys {
+			if string(k.PubKey().Address()) == string(v.Address) {
+				key = k
+			}
+		}
+		total += v.VotingPower
+		kind := vp.Choice("precommit-kind", 5)
+		bid, flag := id1, types.BlockIDFlagCommit
+		if kind == 1 || kind == 4 {
+			bid, flag = types.BlockID{}, types.BlockIDFlagNil
+		}
+		vote := &types.Vote{Type: tmproto.PrecommitType, Height: 1, Round: 0, BlockID: bid, Timestamp: ts, ValidatorAddress: v.Address, ValidatorIndex: int32(i)}
+		sig := vpSign(key, types.VoteSignBytes(vpC06Chain, vote.ToProto()))
+		switch kind {
+		case 0:
+			forBlock += v.VotingPower
+		case 2:
+			sigs[i] = types.NewCommitSigAbsent()
+			continue
+		case 3, 4:
+			sig = bytes.Repeat([]byte{0x5a}, 64)
+			allGenuine = false
+		}
+		sigs[i] = types.CommitSig{BlockIDFlag: flag, ValidatorAddress: v.Address, Timestamp: ts, Signature: sig}
+	}
+	commit := types.NewCommit(1, 0, id1, sigs)
+	block, _ := st.MakeBlock(2, []types.Tx{{2}}, commit, nil, st.Validators.GetProposer().Address)
+	err := validateBlock(st, block)
+	if allGenuine && forBlock*3 > total*2 {
+		vp.Reach("accepted")
+		vp.Assert(err == nil, "C06.validate.block-with-a-genuine-two-thirds-last-commit-is-accepted")
+	} else if !allGenuine {
+		vp.Reach("forged-slot")
+		vp.Assert(err != nil, "C06.validate.last-commit-with-a-signature-that-does-not-verify-is-rejected(any-position)")
+	} else {
+		vp.Reach("short")
+		vp.Assert(err != nil, "C06.validate.last-commit-needs-more-than-two-thirds-for-the-block(nil-precommits-do-not-count)")
+	}
+}
